@@ -275,6 +275,9 @@ def run(ctx):
             rcl = C.find_local(f, "rc", ty="bool", pred=lambda fn_, l_: any(d[1] == "assign" and d[2].rv is not None and d[2].rv.k == "use" and d[2].rv.ops[0].place is not None and d[2].rv.ops[0].place.local == l_ for d in prim.local_defs(fn_).get(0, [])))
             if rcl and f.local_name(rcl[0]) != "rc":
                 got = [(a, l, b.replace("RET(var:%s)" % f.local_name(rcl[0]), "RET(var:rc)")) for a, l, b in got]
+        if ty == "ListMatcher":
+            # before the first element the accumulator still holds its initial `false`: the same return, seen more precisely
+            got = sorted(set((a, l, "RET(var:rc)" if (C.base(a) == "next" and l == "0" and b == "RET(const:False)") else b) for a, l, b in got))
         extra, missing = C.diff_edges(got, want)
         ctx.ob("R3", "shape:%s" % ty, not extra and not missing,
                "evaluation event graph of %s::matches differs from the reference evaluation.\n  unexpected edges: %s\n  missing edges: %s\n  (events: child=sub-matcher matches(), quit?=should_quit(), next=iterator step; labels are the outcome of the source event)" % (ty, C.edges_str(extra), C.edges_str(missing)),
